@@ -270,7 +270,7 @@ func convBound(c *Case) time.Duration {
 // clause is judged (see the package comment in c15_test.go).
 func dropRequired(class string) bool {
 	switch class {
-	case "stalled_reader", "tcp_stall", "tcp_reset", "tcp_stall_quiet":
+	case "stalled_reader", "tcp_stall", "tcp_reset", "tcp_stall_quiet", "reconnect_storm":
 		return true
 	case "no_ack":
 		// open finding (a session that is read but never acknowledged is never
@@ -402,6 +402,7 @@ func runCase(spec *ChildSpec) *Result {
 		slowRep *replication.Replica
 		faulty  *Node
 		nk      *nackClient
+		storm   *stormClient
 	)
 	attach := func() *Result {
 		var err error
@@ -410,6 +411,15 @@ func runCase(spec *ChildSpec) *Result {
 		switch c.Fault.Class {
 		case "stalled_reader":
 			raw, err = dialRaw(prim.Addr, faultyAddr)
+		case "reconnect_storm":
+			storm, err = startStorm(prim.Addr, faultyAddr, c.Fault.Storm)
+			if err == nil {
+				// sessions come and go: registration is not waited for
+				r.mu.Lock()
+				r.attached = true
+				r.mu.Unlock()
+				return nil
+			}
 		case "nack_sender":
 			nk, err = startNackClient(prim.Addr, faultyAddr, *c.Fault.Nack)
 		case "no_ack":
@@ -540,6 +550,9 @@ func runCase(spec *ChildSpec) *Result {
 		}
 		r.mu.Unlock()
 	}
+	if storm != nil {
+		storm.halt()
+	}
 	close(stopReader)
 	<-readerDone
 	res.WorkMs = time.Since(t0).Milliseconds()
@@ -580,6 +593,9 @@ func runCase(spec *ChildSpec) *Result {
 		}
 		if slow != nil {
 			res.FaultyStats = map[string]any{"entries_applied": slow.n.Load()}
+		}
+		if storm != nil {
+			res.FaultyStats = map[string]any{"storm_cycles": storm.cycles.Load(), "storm_errors": storm.errs.Load()}
 		}
 		if nk != nil {
 			res.FaultyStats = map[string]any{"nacks": nk.nacks.Load(), "acks": nk.acks.Load(), "rpc_errors": nk.nackErr.Load(),
